@@ -133,6 +133,7 @@ func mnemonic(r *rand.Rand, tier string, tr *trace.Buf, wordlistOut string) {
 		wl[i] = cps(w)
 	}
 	trace.WriteJSON(wordlistOut, wl)
+	tr.Emit(mnEvent{Ev: "wordlist", Bytes: []int{}, Phrase: []int{}, Class: "facts"})
 
 	inList := map[string]bool{}
 	for _, w := range qrl.WordList {
